@@ -18,6 +18,9 @@ import AtreeProofs.BufferPoolLemmas
     * `reset_keeps_only_capacity`       the one thing a recycled buffer carries over;
     * `bad_put_leaks_previous_bytes`    TEETH: without `e.Reset()` in `putBuffer` the next holder's
                                          result starts with the previous holder's bytes;
+    * `use_after_put_corrupts_next_holder`, `kept_bytes_slice_sees_next_holder`
+                                         TEETH of the source premises (object-identity model): a `put` that
+                                         is not the last action, a `Bytes()` slice that is kept;
     * `source_premises`                 the code has the shape the model assumes (extractor facts).
 
   Not covered: data races on one `*bytes.Buffer` (two goroutines holding the same object) — excluded
@@ -95,6 +98,34 @@ theorem good_put_right_bytes (G : Growth) (a b : Bytes) (n : Nat) :
       some (.read b) := by
   simp [World.run, World.runWith, World.stepWith, Pool.get, Pool.put, getSlot, Buffer.write, Buffer.bytes,
     Buffer.fresh, Buffer.reset]
+
+/-- **Why the `put` must be the holder's LAST action** (`Gen.bufferGetIsFollowedByDeferredPut`: it is
+    the deferred call placed directly after the `get`).  With object identity (`HWorld`): holder 1 gets a
+    buffer, writes `a`, puts it back but keeps its pointer; holder 2 is handed the same object and writes
+    `b`; holder 1 writes `c` through its stale pointer; holder 2 reads `b ++ c`, not `b`. -/
+theorem use_after_put_corrupts_next_holder (G : Growth) (a b c : Bytes) (n : Nat) :
+    let w0 : HWorld := {}
+    let (p1, w1) := w0.get G n
+    let w2 := (w1.write G p1 a).put p1
+    let (p2, w3) := w2.get G n
+    let w4 := (w3.write G p2 b).write G p1 c
+    p1 = p2 ∧ w4.read p2 = b ++ c := by
+  simp [HWorld.get, HWorld.put, HWorld.write, HWorld.read, Buffer.write, Buffer.reset, Buffer.bytes,
+    Buffer.fresh, List.modify]
+
+/-- **Why `Bytes()` must be copied at once** (`Gen.bufferPoolUses`: it is the direct argument of
+    `EncodeRawBytes`, which copies).  Holder 1 writes `a`, keeps the slice `Bytes()` (modelled as its
+    pointer), puts the buffer back; holder 2 is handed the same object and writes `b`; what holder 1 now
+    reads through the slice it kept is `b`, not the `a` it encoded. -/
+theorem kept_bytes_slice_sees_next_holder (G : Growth) (a b : Bytes) (n : Nat) :
+    let w0 : HWorld := {}
+    let (p1, w1) := w0.get G n
+    let w2 := (w1.write G p1 a).put p1
+    let (p2, w3) := w2.get G n
+    let w4 := w3.write G p2 b
+    (w1.write G p1 a).read p1 = a ∧ w4.read p1 = b := by
+  simp [HWorld.get, HWorld.put, HWorld.write, HWorld.read, Buffer.write, Buffer.reset, Buffer.bytes,
+    Buffer.fresh, List.modify]
 
 /-! ### The code has the shape the model assumes -/
 
